@@ -734,11 +734,24 @@ func (e *executor) execTop(cmd string, w []string) error {
 				return fmt.Errorf("`%s` references %s %s which does not exist", cmd, s.kind, pw[s.idx])
 			}
 		}
+		if n, err := strconv.Atoi(seq); err != nil || n < 1 || n > 65535 {
+			return fmt.Errorf("sequence number %s is outside 1..65535: %s", seq, cmd)
+		}
 		key := cryptoAttrKey(pw)
 		sameEntry := func(b *block) bool {
 			bw := b.words()
 			k, n := headKind(bw)
 			return k == kind && n == name && bw[3] == seq
+		}
+		// an entry is either a dynamic one (exactly one `ipsec-isakmp dynamic D` line) or a static one
+		for _, b := range d.Blocks {
+			if !sameEntry(b) || b.Head == pos {
+				continue
+			}
+			bk := cryptoAttrKey(b.words())
+			if key == "ipsec-isakmp dynamic" || bk == "ipsec-isakmp dynamic" {
+				return fmt.Errorf("sequence number %s of %s %s is occupied by `%s`: %s", seq, pw[1], name, b.Head, cmd)
+			}
 		}
 		for _, b := range d.Blocks {
 			if sameEntry(b) && cryptoAttrKey(b.words()) == key {
@@ -1089,6 +1102,15 @@ func (d *vdev) content(r ref, depth int) string {
 			}
 		}
 		sort.Strings(out)
+		var uniq []string
+		for _, x := range out {
+			if len(uniq) == 0 || uniq[len(uniq)-1] != x {
+				uniq = append(uniq, x)
+			}
+		}
+		if r.kind == "aaa" {
+			out = uniq // several hosts of one server group carry the same map
+		}
 		return strings.Join(out, "; ")
 	case "gp", "tg", "user":
 		var out []string
